@@ -1,4 +1,5 @@
 """Utilities over the compact trees emitted by opmfacts."""
+import re
 
 CHILD_KEYS = ("c", "a", "b", "obj", "callee", "init", "cond", "then", "else", "inc", "body", "range", "e", "v", "sub",
               "capinits", "handlers", "vars", "params", "var", "condvar", "inits")
@@ -90,6 +91,9 @@ def decast(n):
     return {k: decast(v) if isinstance(v, (dict, list)) else v for k, v in n.items()}
 
 
+LAMBDA_FULL = False
+
+
 def show(n, depth=0):
     """Canonical one-line rendering of an expression/statement tree (independent of layout,
     parentheses and line numbers).  Used both for AST equality and for reports."""
@@ -175,6 +179,19 @@ def show(n, depth=0):
     if k == "Cast":
         return "(%s)%s" % (n.get("t"), show(n["c"][0]))
     if k == "Lambda":
+        if LAMBDA_FULL:
+            # position independent: captures (with their initialisers), parameters numbered, body
+            body = show(n.get("body"))
+            caps = []
+            inits = list(n.get("capinits") or [])
+            for c in n.get("caps") or []:
+                caps.append(("&" if c.get("byref") else "") + (c.get("n") or "this"))
+            if inits:
+                caps = ["%s=%s" % (c, show(i)) for c, i in zip(caps, inits)] + caps[len(inits):]
+            for i, p_ in enumerate(n.get("params") or []):
+                if p_.get("n"):
+                    body = re.sub(r"(?<![\w.:])%s\b" % re.escape(p_["n"]), "$%d" % i, body)
+            return "[%s](%d)%s" % (", ".join(sorted(caps)), len(n.get("params") or []), body)
         return "[lambda@%s]" % n.get("l")
     if k == "SizeOf":
         return "sizeof(%s)" % (n.get("t") or show(n.get("e")))
